@@ -46,43 +46,61 @@ def first_occurrences(seq):
     return out
 
 
+def refusal_legitimate(case, route):
+    """Decided from the INPUT alone: may this construction be refused?  (The property does not say how: any exception
+    class and message is accepted then.)"""
+    verts, edges, faces, cells = case["verts"], case["edges"], case["faces"], case["cells"]
+    N = len(verts)
+    if route == "from_arrays":
+        w = len(verts[0]) if verts else 3
+        if w > 3:
+            return "from_arrays is given points of width %d" % w
+        if any(x >= N for rows in (edges, faces, cells) for r in rows for x in r):
+            return "from_arrays is given an index >= the number of vertices"
+    if cells and not case["cfg"][0]:
+        declared = {skey(f) for f in faces}
+        if any(k not in declared for c in cells for k in (cell_face_sets(c) or [])):
+            return "face completion is switched off and a face of a cell was not supplied"
+    return None
+
+
+def minus(rows, taken):
+    """rows without one occurrence of each row of `taken` (None when some row of `taken` is absent)"""
+    rest = [list(r) for r in rows]
+    for t in taken:
+        if list(t) in rest:
+            rest.remove(list(t))
+        else:
+            return None
+    return rest
+
+
 def check_stage0(case, o, route, pads_1d=False):
-    """`case` = the raw data this construction started from (verts in quarter units, edges, faces, cells, eattrs, and
-    optionally pre-filled corner containers "fc"/"cc"/"cf"), `o` = the finished object."""
+    """`case` = the raw data this construction started from (verts in quarter units, edges, faces, cells, eattrs),
+    `o` = what was observed.  Only what the property sentence states is required; in particular NOT: the class / message
+    of a refusal, the order of the edge list or of the face list, the order of a cell's faces in cell_faces, the
+    representation (sparse / dense, key set, default) or the order of the attributes, extra attributes, the container or
+    scalar type of rows and coordinates (they must only be the same for every input container), object identities."""
     cf, ce = case["cfg"]
     verts, edges, faces, cells = case["verts"], case["edges"], case["faces"], case["cells"]
     N = len(verts)
     valid = lambda e: e[0] != e[1] and 0 <= e[0] < N and 0 <= e[1] < N
     if "err" in o:
-        if route == "from_arrays":
-            w = len(verts[0]) if verts else 3
-            oob = any(x >= N for rows in (edges, faces, cells) for r in rows for x in r)
-            if o["err"] == "Exception" and (w > 3 or oob):
-                return None
-        declared = {skey(f) for f in faces}
-        missing = any(k not in declared for c in cells for k in (cell_face_sets(c) or []))
-        if o["err"] == "KeyError" and not cf and missing:
-            return None  # completion switched off and a cell's face was not supplied
-        return ("raises/" + o["err"], "construction raised %s (%s)" % (o["err"], o.get("msg", "")))
-    # ---- vertices: 3-D floats, the given points, 2-D ones padded with 0 (1-D ones only by from_arrays; a raw container
-    #      given 1-D or >3-D points is outside what the property promises: compared with the model only)
-    want_v = []
-    for v in verts:
-        w = list(v)
-        if len(w) == 2 or (pads_1d and len(w) < 3):
-            w = w + [0] * (3 - len(w))
-        want_v.append(w)
-    if o["verts"] != want_v:
-        return ("vertices", "vertices are %s (quarter units), expected %s: the given points, 2-D ones padded with z=0"
-                % (o["verts"][:4], want_v[:4]))
-    if any(len(v) in (2, 3) for v in verts) and any(len(w) != 3 for v, w in zip(verts, o["verts"]) if len(v) in (2, 3)):
-        return ("vertices", "a 2-D / 3-D input point did not become a 3-D vertex: %s" % o["verts"][:4])
-    if not o["vec_ok"] or not o.get("float_ok", True):
-        return ("vertex-type", "vertices are not float Vec objects")
-    if o.get("alias_ok") is False:
-        return ("aliasing/inputs", "the built mesh changed when the objects handed to the containers were mutated afterwards")
-    if o.get("twin_ok") is False:
-        return ("shared-state/twin", "a second mesh built from equal arguments differs, or spoiling it in place changed the first")
+        why = refusal_legitimate(case, route)
+        if why is None:
+            return ("refused-acceptable-input", "construction raised %s (%s) on an input the property says is built"
+                    % (o["err"], o.get("msg", "")))
+        if o.get("inputs_ok") is False:
+            return ("refusal-changed-inputs", "the construction was refused (%s) but the caller's arrays were modified" % why)
+        return None
+    # ---- vertices: the given points as 3-D points (2-D ones get a third coordinate; 1-D ones only through from_arrays;
+    #      a raw container given 1-D or >3-D points is outside what the property promises)
+    if len(o["verts"]) != N:
+        return ("vertices", "%d vertices for %d given points" % (len(o["verts"]), N))
+    for v, w in zip(verts, o["verts"]):
+        if len(v) in (2, 3) or (pads_1d and len(v) < 3):
+            if len(w) != 3 or w[:len(v)] != list(v):
+                return ("vertices", "the given point %s became the vertex %s (quarter units), not that point in 3-D" % (v, w))
     # ---- class = highest-dimensional element present (or the override)
     has_valid_edge = any(valid(e) for e in edges)
     d = 3 if cells else 2 if faces else 1 if has_valid_edge else 0
@@ -90,23 +108,16 @@ def check_stage0(case, o, route, pads_1d=False):
         d = max(d, case["dim"])
     if o["class"] != CLASSES[d]:
         return ("class", "class is %s, highest-dimensional element present asks for %s" % (o["class"], CLASSES[d]))
-    for k, need in (("edges", 1), ("faces", 2), ("fc", 2), ("cells", 3), ("cc", 3), ("cf", 3)):
-        if (o[k] is not None) != (d >= need):
-            return ("class", "a %s %s container %s" % (o["class"], "lacks the" if d >= need else "has a", k))
-    # ---- index rows are handed back in one form, whatever form they came in
-    for k, tn in (o.get("types") or {}).items():
-        if any(t not in ("tuple[int]", "tuple[]") for t in tn):
-            return ("row-type", "%s rows are handed back as %s, not as tuples of Python ints" % (k, tn))
     fin_faces = o["faces"] if o["faces"] is not None else []
     fin_cells = o["cells"] if o["cells"] is not None else []
     fin_edges = o["edges"] if o["edges"] is not None else []
-    # ---- faces completed from cells
-    if fin_cells != cells:
+    if d >= 3 and sorted(map(tuple, fin_cells)) != sorted(map(tuple, cells)):
         return ("cells", "cells changed: %s -> %s" % (cells, fin_cells))
+    # ---- faces completed from cells
     if d >= 2:
-        if fin_faces[:len(faces)] != faces:
-            return ("faces", "declared faces are not kept at the front of the face list")
-        added = fin_faces[len(faces):]
+        added = minus(fin_faces, faces)
+        if added is None:
+            return ("faces", "a declared face is missing from the face list %s" % fin_faces)
         declared = {skey(f) for f in faces}
         cellkeys = []
         for c in cells:
@@ -128,69 +139,61 @@ def check_stage0(case, o, route, pads_1d=False):
                     return ("faces-from-cells", "added face %s is not a %s" % (f, "triangle" if want_ar == 3 else "quad"))
         elif added:
             return ("faces-from-cells", "faces were added although completion is off / there is no cell: %s" % added)
-    # ---- edges: stated on sets, counts and first occurrences
+    # ---- edges: a multiset statement (no order is required of the edge list)
     dup_finding = None
     if d >= 1:
         for e in fin_edges:
             if not (0 <= e[0] < e[1] < N):
                 return ("edge-range", "edge %s is not (a,b) with 0 <= a < b < %d" % (e, N))
-        decl_keys = [list(skey(e)) for e in edges if valid(e)]          # surviving declared edges, in declared order
-        side_keys = []
+        decl_keys = [skey(e) for e in edges if valid(e)]
+        decl_count = {}
+        for k in decl_keys:
+            decl_count[k] = decl_count.get(k, 0) + 1
+        sides = set()
         if ce and fin_faces:
             for f in fin_faces:
-                side_keys += [list(skey((f[i], f[(i + 1) % len(f)]))) for i in range(len(f))]
-        side_keys = [s for s in side_keys if valid(s)]
-        want_set = {tuple(e) for e in decl_keys} | {tuple(s) for s in side_keys}
-        got_set = {tuple(e) for e in fin_edges}
-        if got_set != want_set:
+                for i in range(len(f)):
+                    sk = skey((f[i], f[(i + 1) % len(f)]))
+                    if valid(sk):
+                        sides.add(sk)
+        new = sides - set(decl_keys)
+        got = {}
+        for e in fin_edges:
+            got[tuple(e)] = got.get(tuple(e), 0) + 1
+        want_keys = set(decl_keys) | new
+        if set(got) != want_keys:
             return ("edge-set", "the edge set is %s; declared edges plus face sides give %s (missing %s, extra %s)"
-                    % (sorted(got_set), sorted(want_set), sorted(want_set - got_set), sorted(got_set - want_set)))
-        nd = len(decl_keys)
-        if fin_edges[:nd] != decl_keys:
-            return ("edge-order", "the surviving declared edges %s are not the first %d edges %s" % (decl_keys, nd, fin_edges[:nd]))
-        new = fin_edges[nd:]
-        declared_set = {tuple(e) for e in decl_keys}
-        want_new = [s for s in first_occurrences(side_keys) if tuple(s) not in declared_set]
-        if new != want_new:
-            return ("edge-sides", "after the declared edges come %s; each new side of each face once, in face order, is %s" % (new, want_new))
-        if len(got_set) != len(fin_edges):
-            dups = sorted({tuple(e) for e in fin_edges if fin_edges.count(e) > 1})
-            if all(decl_keys.count(list(e)) > 1 for e in dups):
+                    % (sorted(got), sorted(want_keys), sorted(want_keys - set(got)), sorted(set(got) - want_keys)))
+        dups = sorted(k for k, n in got.items() if n > 1)
+        if dups:
+            if all(got[k] <= decl_count.get(k, 0) for k in dups):
                 dup_finding = ("edge-list/duplicate-declared",
                                "edges %s occur more than once in the edge list: they were declared more than once %s" % (dups, edges))
             else:
-                return ("edge-dup", "edges %s occur more than once in %s" % (dups, fin_edges))
-        # ---- attributes: a value survives iff its edge survives, at the compacted index
+                return ("edge-dup", "edges %s occur more often in %s than they were declared" % (dups, fin_edges))
+        # ---- attributes: (edge, value) pairs - a value survives iff its edge survives, and stays with that edge
         kept = [i for i, e in enumerate(edges) if valid(e)]
         names = [a["name"] for a in o["eattrs"]]
         for a in case["eattrs"]:
             if a["name"] not in names:
                 return ("attr-lost", "edge attribute %s disappeared" % a["name"])
             oa = o["eattrs"][names.index(a["name"])]
-            want = [attr_value(a, i) for i in kept] + [0 if a["default"] is None else int(a["default"])] * len(new)
-            if oa["vals"] != want:
+            dflt = 0 if a["default"] is None else int(a["default"])
+            want = sorted([(skey(edges[i]), attr_value(a, i)) for i in kept] + [(k, dflt) for k in new])
+            have = sorted((tuple(e), v) for e, v in zip(fin_edges, oa["vals"]))
+            bad = minus(want, have) is None if dups else have != want
+            if bad:
                 return ("attr-values/%s" % ("dense" if a["dense"] else "sparse"),
-                        "edge attribute %s (%s, default %s) reads %s on the final edges, the surviving edges' values are %s"
-                        % (a["name"], "dense" if a["dense"] else "sparse", a["default"], oa["vals"], want))
+                        "edge attribute %s (%s, default %s): the final (edge, value) pairs are %s, the surviving edges carried %s"
+                        % (a["name"], "dense" if a["dense"] else "sparse", a["default"], have, want))
             if oa["keys"] is not None and any(k >= len(fin_edges) and k >= len(edges) for k in oa["keys"]):
-                return ("attr-keys", "attribute %s holds a key %s beyond the edge list" % (a["name"], oa["keys"]))
-        declared_names = [a["name"] for a in case["eattrs"]]
-        for n in names:
-            if n not in declared_names and n != "hard_edges":
-                return ("attr-extra", "unexpected edge attribute %s" % n)
-        # ---- hard edges: exactly the declared edges
-        if "hard_edges" not in declared_names:
-            if ce and fin_faces:
-                if "hard_edges" not in names:
-                    return ("hard-edges", "no hard_edges attribute although edges were completed from faces")
-                hv = o["eattrs"][names.index("hard_edges")]["vals"]
-                want = [1] * nd + [0] * len(new)
-                if hv != want:
-                    return ("hard-edges", "hard_edges flags are %s, the declared edges are exactly the first %d of %d" % (hv, nd, len(hv)))
-            elif "hard_edges" in names:
-                hv = o["eattrs"][names.index("hard_edges")]["vals"]
-                if any(hv[nd:]):
-                    return ("hard-edges", "an edge the caller did not declare is flagged hard: %s" % hv)
+                return ("attr-keys", "attribute %s holds a key %s beyond the edge list: a dropped edge's value was kept" % (a["name"], oa["keys"]))
+        # ---- hard edges: ONLY declared edges are flagged
+        if "hard_edges" in names and "hard_edges" not in [a["name"] for a in case["eattrs"]]:
+            hv = o["eattrs"][names.index("hard_edges")]["vals"]
+            wrong = [e for e, v in zip(fin_edges, hv) if v and tuple(e) not in decl_count]
+            if wrong:
+                return ("hard-edges", "edges %s are flagged hard although the caller did not declare them" % wrong)
     # ---- corner records: one per incidence, in element order, element and owner
     if d >= 2:
         we = [v for f in fin_faces for v in f]
@@ -212,19 +215,26 @@ def check_stage0(case, o, route, pads_1d=False):
             off = 0
             for c in fin_cells:
                 ks = cell_face_sets(c)
-                got = []
+                got_k = []
                 for j in range(len(ks)):
                     fid = el[off + j]
                     if not (0 <= fid < len(fin_faces)):
                         return ("cell-faces", "cell_faces id %d out of range" % fid)
-                    got.append(skey(fin_faces[fid]))
-                if len(c) == 4:
-                    if got != ks:
-                        return ("cell-faces", "cell %s: cell_faces lists faces %s, face i must be the one opposite vertex i: %s" % (c, got, ks))
-                elif sorted(got) != sorted(ks):
-                    return ("cell-faces", "cell %s: cell_faces lists faces %s, its six quads are %s" % (c, got, ks))
+                    got_k.append(skey(fin_faces[fid]))
+                if sorted(got_k) != sorted(ks):
+                    return ("cell-faces", "cell %s: cell_faces lists faces %s, its faces are %s" % (c, got_k, ks))
                 off += len(ks)
     return dup_finding
+
+
+def view(o):
+    """what 'building again changes nothing' / 'whatever the input container' compare: the class, the containers and the
+    attribute VALUES on the edges (not their representation or order); a refusal counts as a refusal, whatever its class"""
+    if "err" in o:
+        return {"refused": True}
+    return {"class": o["class"], "verts": o["verts"], "edges": o["edges"], "faces": o["faces"], "cells": o["cells"],
+            "fc": o["fc"], "cc": o["cc"], "cf": o["cf"],
+            "eattrs": sorted([a["name"], a["vals"]] for a in o["eattrs"])}
 
 
 def edited_input(case, prev, edits, prev_is_data=False):
@@ -279,7 +289,7 @@ def script_failure(case, route, x):
     """later behaviour: no operation may raise (the scripts only ask what the built mesh must be able to answer)"""
     for q, a in zip(case.get("script", []), x.get("script", [])):
         if a[0] == "err":
-            return ("later-raises/%s/%s" % (q[0], a[1]), "[%s rows] %s%s raised %s: %s" % (route, q[0], q[1:], a[1], a[2] if len(a) > 2 else ""))
+            return ("later-raises/%s" % q[0], "[%s rows] %s%s raised %s: %s" % (route, q[0], q[1:], a[1], a[2] if len(a) > 2 else ""))
     return None
 
 
@@ -305,8 +315,9 @@ def oracle_all(case, res):
                 continue
         edits = case.get("edits") or []
         stop = False
-        strip = lambda o: {k: v for k, v in o.items() if k not in ("alias_ok", "twin_ok")}
-        st = [strip(o) for o in st]
+        if st[0].get("twin_same") is False:
+            fails.append(("shared-state/twin", "[%s] a second mesh built from equal arguments differs from the first" % route))
+            continue
         cur_in = inp            # the data the current attempt started from
         for i, s in enumerate(st[1:], 1):
             es = edits[i - 1] if i - 1 < len(edits) else []
@@ -327,8 +338,8 @@ def oracle_all(case, res):
             fk = [skey(f) for f in (prev.get("faces") or [])]
             twin_faces = len(set(fk)) != len(fk)   # the same face twice: either copy may serve as a cell's face
             if all(e[0] in QUIET for e in es) and not twin_faces \
-                    and json.dumps(s, sort_keys=True) != json.dumps(prev, sort_keys=True):
-                diff = [k for k in s if s.get(k) != prev.get(k)] if "err" not in s else ["raised " + s["err"]]
+                    and json.dumps(view(s), sort_keys=True) != json.dumps(view(prev), sort_keys=True):
+                diff = [k for k in view(s) if view(s).get(k) != view(prev).get(k)] if "err" not in s else ["it was refused: " + s["err"]]
                 fails.append(("rebuild/" + (diff[0] if diff else "?"),
                               "[%s] building again from the built mesh (pass %d, edits %s) changed %s: %s -> %s"
                               % (route, i, es, diff, {k: prev.get(k) for k in diff}, {k: s.get(k) for k in diff})))
@@ -356,7 +367,7 @@ def oracle_all(case, res):
         comparable = route in RAW_ROUTES or (route == "from_arrays" and "err" not in st[0]
                                              and len(case["verts"][0] if case["verts"] else [0, 0, 0]) >= 2)
         if comparable:
-            nomsg = [{k: v for k, v in s.items() if k != "msg"} for s in st]
+            nomsg = [dict(view(s), types=s.get("types"), vkind=[s.get("vec_ok"), s.get("float_ok")]) for s in st]
             sig = json.dumps({"stages": nomsg, "script": x["script"]}, sort_keys=True)
             if base is None:
                 base = (route, sig, x)
@@ -370,7 +381,8 @@ def oracle_all(case, res):
                             break
                 else:
                     for sa, sb in zip(base[2]["stages"], st):
-                        d = [k for k in sb if k != "msg" and sb.get(k) != sa.get(k)]
+                        sa, sb = dict(view(sa), types=sa.get("types")), dict(view(sb), types=sb.get("types"))
+                        d = [k for k in sb if sb.get(k) != sa.get(k)]
                         if d:
                             detail = " %s: %s vs %s" % (d[0], json.dumps(sa.get(d[0]))[:200], json.dumps(sb.get(d[0]))[:200])
                             break
